@@ -364,6 +364,12 @@ func readerFamily(seed uint64, tier string, args []string) {
 	}
 	_ = strings.Join
 	_ = fmt.Sprint
+	// ties between the two arrivals
+	ties := 6000
+	if tier == "thorough" {
+		ties = 120000
+	}
+	emit(readerTies(seed, ties, 6))
 }
 
 // direct oracle: the property, without the model: bytes received are a prefix of the payload, equal to it once
